@@ -17,9 +17,10 @@ for C14 (`Model/TaxLoad.lean`: `rawLines` = successive `ReadSlice('\n')`, `csvLi
 * `mimetype.Detect` on the first 3072 bytes, the last incomplete line dropped (`dropLastLine`), as far as it
   chooses the reader: children of `text/plain` in their order — `text/csv` (generic detector), then
   `text/tab-separated-values` (the same detector with a tab: such a text goes to the OLD reader), …, then the
-  extension `text/ngsfilter-csv` (`NGSFilterCsvDetector`).  The other children (html, xml, php, js, lua,
-  perl, python, json, ndjson, rtf, srt, tcl, vcard, icalendar, warc, vtt) and the binary formats are not
-  modelled: the text is assumed to be plain ASCII text that none of them recognises;
+  extension `text/ngsfilter-csv` (`NGSFilterCsvDetector`).  A "binary data byte" (e.g. a vertical tab) in the window makes the input
+  `application/octet-stream`: old reader.  The other children (html, xml, php, js, lua, perl, python, json,
+  ndjson, rtf, srt, tcl, vcard, icalendar, warc, vtt) and the formats recognised by magic numbers are not
+  modelled: the text is assumed to be ASCII that none of them recognises;
 * `_readLines` (`bufio.Reader.ReadLine` + `strings.TrimSpace`, blank lines dropped).
 -/
 namespace ObiVerif.NgsFilterBytes
@@ -94,13 +95,23 @@ def ngsDetect (pre : Bytes) : Option Bool :=
 inductive Kind | csv | old
   deriving DecidableEq, Repr
 
-/-- the branch taken by `ReadNGSFilter` (`none` = a quoted field met by a detector) -/
-def whichReader (text : Bytes) : Option Kind := do
+/-- `magic.Text`: a "binary data byte" of the mimesniff standard (NUL..BS, VT, SO..SUB, FS..US) in the window
+makes the input `application/octet-stream`, not `text/plain`: none of the CSV detectors is even asked -/
+def isBinaryByte (b : UInt8) : Bool :=
+  decide (b ≤ 8) || b == 11 || (decide (14 ≤ b) && decide (b ≤ 26)) || (decide (28 ≤ b) && decide (b ≤ 31))
+
+/-- the choice among the children of `text/plain` (`none` = a quoted field met by a detector) -/
+def whichText (text : Bytes) : Option Kind := do
   let pre := detectorInput text
   if (← svDetect 44 pre) then return .csv          -- text/csv
   if (← svDetect 9 pre) then return .old           -- text/tab-separated-values
   if (← ngsDetect pre) then return .csv            -- text/ngsfilter-csv
   return .old                                      -- text/plain
+
+/-- the branch taken by `ReadNGSFilter` -/
+def whichReader (text : Bytes) : Option Kind :=
+  if (text.take readLimit).any isBinaryByte then some .old      -- application/octet-stream
+  else whichText text
 
 /-! ## the two readers from the bytes -/
 
